@@ -537,42 +537,60 @@ def strip_chain(e: ast.AST) -> Chain:
 
 
 # --------------------------------------------------------------------------------------------
-# integer folding over enumerated atoms (constant folding, one world at a time)
+# folding of *constant* integer expressions (no names other than the stat module's permission constants)
 
-def fold_int(e: ast.AST, env: T.Dict[str, T.Any], calls: T.Dict[str, T.Callable[[ast.Call], T.Any]]) -> T.Any:
-    if isinstance(e, ast.Constant) and isinstance(e.value, (int, bool)):
+STAT_CONSTS = {'S_IXUSR': 0o100, 'S_IXGRP': 0o010, 'S_IXOTH': 0o001, 'S_IRWXU': 0o700, 'S_IRWXG': 0o070, 'S_IRWXO': 0o007,
+               'S_IRUSR': 0o400, 'S_IWUSR': 0o200, 'S_IRGRP': 0o040, 'S_IWGRP': 0o020, 'S_IROTH': 0o004, 'S_IWOTH': 0o002}
+
+
+def const_int(e: ast.AST) -> T.Optional[int]:
+    """Value of an integer expression built from literals, stat.S_I* and | & ^ +; None when it depends on anything else."""
+    if isinstance(e, ast.Constant) and isinstance(e.value, int) and not isinstance(e.value, bool):
         return e.value
-    if isinstance(e, ast.Name):
-        if e.id in env:
-            return env[e.id]
-        raise Undecided(f'integer folding: free name {e.id}')
-    if isinstance(e, ast.UnaryOp) and isinstance(e.op, ast.Invert):
-        return ~fold_int(e.operand, env, calls)
-    if isinstance(e, ast.UnaryOp) and isinstance(e.op, ast.Not):
-        return not fold_int(e.operand, env, calls)
-    if isinstance(e, ast.BinOp) and isinstance(e.op, (ast.BitAnd, ast.BitOr, ast.BitXor)):
-        a, b = fold_int(e.left, env, calls), fold_int(e.right, env, calls)
-        return a & b if isinstance(e.op, ast.BitAnd) else (a | b if isinstance(e.op, ast.BitOr) else a ^ b)
-    if isinstance(e, ast.IfExp):
-        return fold_int(e.body, env, calls) if fold_int(e.test, env, calls) else fold_int(e.orelse, env, calls)
-    if isinstance(e, ast.Compare) and len(e.ops) == 1 and isinstance(e.ops[0], (ast.Eq, ast.NotEq)):
-        a, b = fold_int(e.left, env, calls), fold_int(e.comparators[0], env, calls)
-        return (a == b) if isinstance(e.ops[0], ast.Eq) else (a != b)
-    if isinstance(e, ast.Call):
-        f = norm(e.func)
-        if f == 'bool' and len(e.args) == 1:
-            return bool(fold_int(e.args[0], env, calls))
-        if f in calls:
-            return calls[f](e)
-        raise Undecided(f'integer folding: call {short(e)}')
-    if isinstance(e, ast.Attribute):
-        k = norm(e)
-        if k in env:
-            return env[k]
-        # `<call>.st_mode`
-        if isinstance(e.value, ast.Call) and norm(e.value.func) + '.' + e.attr in calls:
-            return calls[norm(e.value.func) + '.' + e.attr](e.value)
-    raise Undecided(f'integer folding: {short(e)}')
+    if isinstance(e, ast.BinOp) and isinstance(e.op, (ast.BitOr, ast.BitAnd, ast.BitXor, ast.Add)):
+        a, b = const_int(e.left), const_int(e.right)
+        if a is None or b is None:
+            return None
+        return {ast.BitOr: a | b, ast.BitAnd: a & b, ast.BitXor: a ^ b, ast.Add: a + b}[type(e.op)]
+    c = attr_chain(e)
+    if c is not None and c.split('.')[-1] in STAT_CONSTS and c.split('.')[0] in ('stat', c.split('.')[-1]):
+        return STAT_CONSTS[c.split('.')[-1]]
+    return None
+
+
+class _SubstNames(ast.NodeTransformer):
+    def __init__(self, env: T.Dict[str, ast.AST]):
+        self.env = env
+
+    def visit_Name(self, n: ast.Name) -> ast.AST:
+        if isinstance(n.ctx, ast.Load) and n.id in self.env:
+            import copy
+            return copy.deepcopy(self.env[n.id])
+        return n
+
+
+def compose_assignments(effects: T.Iterable[str], expr: ast.AST) -> ast.AST:
+    """Copy propagation along one table row: substitute the row's own `x := e` / `x op= e` effects (in order) into `expr`.
+    Purely symbolic: the result is an expression over the parameters, nothing is evaluated."""
+    env: T.Dict[str, ast.AST] = {}
+    ops = {'&': ast.BitAnd, '|': ast.BitOr, '^': ast.BitXor, '+': ast.Add, '-': ast.Sub}
+    for e in effects:
+        if e.startswith('call '):
+            continue
+        if ' := ' in e:
+            t, v = e.split(' := ', 1)
+            if t.isidentifier():
+                env[t] = _SubstNames(env).visit(ast.parse(v, mode='eval').body)
+            continue
+        for sym, cls in ops.items():
+            if f' {sym}= ' in e:
+                t, v = e.split(f' {sym}= ', 1)
+                if t.isidentifier():
+                    if t not in env:
+                        raise Undecided(f'augmented assignment to `{t}` before any binding in the row')
+                    env[t] = ast.BinOp(left=env[t], op=cls(), right=_SubstNames(env).visit(ast.parse(v, mode='eval').body))
+                break
+    return ast.fix_missing_locations(_SubstNames(env).visit(ast.parse(norm(expr), mode='eval').body))
 
 
 def synthetic_module(rel: str, src: str) -> Module:
